@@ -347,7 +347,17 @@ func runCase(k kase) (res result) {
 		procs = append(procs, distsys.MPCalProc{Name: p.Name, Label: p.Label, StateVars: p.Vars,
 			PreAmble: func(iface distsys.ArchetypeInterface) error {
 				for _, w := range p.Pre {
-					if err := iface.Write(iface.RequireArchetypeResource(w[0].(string)), nil, toTLA(w[1])); err != nil {
+					// a local's initialiser is a constant or an expression over the procedure's parameters
+					var v tla.Value
+					if e, ok := w[1].([]interface{}); ok {
+						var err error
+						if v, err = r.eval(iface, e); err != nil {
+							return err
+						}
+					} else {
+						v = toTLA(w[1])
+					}
+					if err := iface.Write(iface.RequireArchetypeResource(w[0].(string)), nil, v); err != nil {
 						return err
 					}
 				}
